@@ -3,7 +3,7 @@
    reports the first observation that differs: the crash points each operation passes, the files
    found after the crash, what commitlog.New recovers from them, and every later read-back.
    Completed operations are also cross-checked against the in-memory model (Log/Model.v). *)
-From LB Require Import Base.Prelude Log.Model Log.Retention Log.Compact Codec.Message Api.Range Log.Check Log.Disk Log.DiskTear.
+From LB Require Import Base.Prelude Log.Model Log.Retention Log.Compact Codec.Message Api.Range Log.Check Log.Disk Log.DiskTear Log.DiskRecover.
 Open Scope Z_scope.
 
 Inductive fobs :=
@@ -18,6 +18,12 @@ Inductive dlop :=
          (offs : list Z) (nw od hw : Z) (cache : list (N * Z))
 (* the crash happened inside the append that precedes the k-th crash point: kk whole frames / entries
    of it arrived, followed by z (Log.DiskTear.spot_of) *)
+(* the crash happened at the k-th crash point of the operation (k = 0: all its effects are done; lv1: the
+   files seen there), and/or inside the commitlog.New that followed: each element of recs is one
+   recovery cut short at its j-th crash point, with the files seen there *)
+| XCrashR (intent : dop) (k : nat) (p : pname) (lv1 : option (list fobs * Z * list (N * Z)))
+          (recs : list (nat * pname * (list fobs * Z * list (N * Z))))
+          (offs : list Z) (nw od hw : Z) (cache : list (N * Z))
 | XTorn (intent : dop) (k : nat) (p : pname) (kk : nat) (z : option Z) (files : list fobs) (hwf : Z) (epf : list (N * Z))
         (offs : list Z) (nw od hw : Z) (cache : list (N * Z)).
 
@@ -29,7 +35,9 @@ Definition pname_eqb (a b : pname) : bool :=
   | PLogWritten, PLogWritten | PIndexWritten, PIndexWritten | PTailDeleted, PTailDeleted
   | PTruncCopy, PTruncCopy | PTruncReplaced, PTruncReplaced | PReplClosed, PReplClosed
   | PReplLogRenamed, PReplLogRenamed | PReplIdxRenamed, PReplIdxRenamed | PDelLogRemoved, PDelLogRemoved
-  | PCleanDeleting, PCleanDeleting | PCompactCopy, PCompactCopy | PCleanCleaned, PCleanCleaned => true
+  | PCleanDeleting, PCleanDeleting | PCompactCopy, PCompactCopy | PCleanCleaned, PCleanCleaned
+  | POrphanRemoved, POrphanRemoved | PRebuildRemoved, PRebuildRemoved | PRebuildCreated, PRebuildCreated
+  | PRebuildEntry, PRebuildEntry | PEpochsTrimmed, PEpochsTrimmed => true
   | _, _ => false
   end.
 
@@ -62,13 +70,33 @@ Definition log_eqb (a b : log) : bool :=
 
 Definition to_log (s : st) : log := mkLog (segs_of (s_disk s)) (s_hw s) (d_ep (s_disk s)) false.
 
+Definition snap_ok (d : disk) (sn : list fobs * Z * list (N * Z)) : bool :=
+  let '(files, hwf, epf) := sn in same_files (files_of d) files && (d_hw d =? hwf) && list_eqb ep_eqb (d_ep d) epf.
+Definition last_point_is (pre : list eff) (pn : pname) : bool :=
+  match rev pre with FPoint q :: _ => pname_eqb q pn | _ => false end.
+
+(* recoveries cut short one after the other: the directory after them, and whether every observation agreed *)
+Fixpoint rec_levels (d : disk) (recs : list (nat * pname * (list fobs * Z * list (N * Z)))) : disk * bool :=
+  match recs with
+  | [] => (d, true)
+  | (j, pn, sn) :: r =>
+    match upto_point j (recover_effs d) with
+    | None => (d, false)
+    | Some pre => let d' := run_effs d pre in
+                  let '(df, ok) := rec_levels d' r in
+                  (df, recover_agrees d && last_point_is pre pn && snap_ok d' sn && ok)
+    end
+  end.
+
 Definition kexec := exec key_of fixed.
 Definition kscript := script key_of fixed.
 
 (* a completed mutating operation: the crash points it passed, and agreement with the in-memory model *)
 Definition do_op (p : params) (s : st) (o : dop) (pts : list pname) (expect : log) : option st * bool :=
   match kscript p s o, kexec p s o with
-  | Some es, Some s' => (Some s', list_eqb pname_eqb (points_of es) pts && log_eqb (to_log s') expect)
+  | Some es, Some s' =>
+    let rpts := match o with DReopen => points_of (recover_effs (run_effs (s_disk s) es)) | _ => [] end in
+    (Some s', list_eqb pname_eqb (points_of es ++ rpts) pts && log_eqb (to_log s') expect)
   | _, _ => (None, false)
   end.
 
@@ -104,7 +132,26 @@ Definition dstep (p : params) (s : st) (x : dlop) : option st * bool :=
         let s' := mkSt r (d_hw r) in
         (Some s',
          match rev pre with FPoint q :: _ => pname_eqb q pn | _ => false end
-         && same_files (files_of d) files && (d_hw d =? hwf) && list_eqb ep_eqb (d_ep d) epf
+         && same_files (files_of d) files && (d_hw d =? hwf) && list_eqb ep_eqb (d_ep d) epf && recover_agrees d
+         && list_eqb Z.eqb (map r_off (content r)) offs
+         && (newest (to_log s') =? nw) && (oldest (to_log s') =? od) && (d_hw r =? hw)
+         && list_eqb ep_eqb (d_ep r) cache)
+      end
+    end
+  | XCrashR intent k pn lv1 recs offs nw od hw cache =>
+    match kscript p s intent with
+    | None => (None, false)
+    | Some es =>
+      match (match k with O => Some es | _ => upto_point k es end) with
+      | None => (None, false)
+      | Some pre =>
+        let d0 := run_effs (s_disk s) pre in
+        let '(d, okr) := rec_levels d0 recs in
+        let r := recover fixed d in
+        let s' := mkSt r (d_hw r) in
+        (Some s',
+         match lv1 with Some sn => last_point_is pre pn && snap_ok d0 sn | None => true end
+         && okr && recover_agrees d
          && list_eqb Z.eqb (map r_off (content r)) offs
          && (newest (to_log s') =? nw) && (oldest (to_log s') =? od) && (d_hw r =? hw)
          && list_eqb ep_eqb (d_ep r) cache)
